@@ -471,6 +471,23 @@ def compile_file(directory, base, args):
     return {"ok": renumber(text.split("\n", 1)[1] if "\n" in text else "")}
 
 
+def compile_cli(directory, base, argstrs):
+    """the same compile through the command-line entry point (compiler.main: option parsing, quickargs evaluation of the
+    template arguments, file-name defaults) in a subprocess; -> like compile_file"""
+    import subprocess, sys
+    out = os.path.join(directory, base + ".pil")
+    if os.path.exists(out):
+        os.remove(out)
+    env = dict(os.environ, PYTHONPATH=core.REPO, PYTHONDONTWRITEBYTECODE="1")
+    p_ = subprocess.run([sys.executable, "-c", "from peppercompiler.compiler import main; main()", base] + list(argstrs),
+                        cwd=directory, env=env, capture_output=True, text=True, timeout=300)
+    if p_.returncode != 0 or not os.path.exists(out):
+        return {"err": "reject", "detail": p_.stderr[-200:]}
+    with open(out) as f:
+        text = f.read()
+    return {"ok": renumber(text.split("\n", 1)[1] if "\n" in text else "")}
+
+
 class Spy:
     """records the environment load_component / load_system hand to process_list"""
     def __init__(self):
@@ -557,6 +574,17 @@ def end_to_end(res, rng, scratch_dir, idx, kind, reqs, impls):
         r1 = compile_file(d1, "T", args)
     top_env = spy.seen[0] if spy.seen else None
     r2 = compile_file(d2, "T", [])
+    if idx % 10 == 3 and "ok" in r1:
+        # the command line: arguments arrive as text and are evaluated (`pepper-compiler T 2*3 4`); spelled as arithmetic here
+        spell = lambda v: rng.choice(["%d" % v, "%d+%d" % (v - 1, 1), "%d*1" % v, "2*%d-%d" % (v, v), " %d" % v])
+        argstrs = [spell(a_) for a_ in args]
+        rc_ = compile_cli(d1, "T", argstrs)
+        res.evaluations += 1
+        res.count("e2e:command-line-arguments")
+        if rc_ != r1:
+            res.violations.append({"what": "template compiled from the command line with arguments %r differs from the compile with the values %r" % (argstrs, args),
+                                   "input": dict(inp, argv=argstrs), "observed": rc_, "expected": r1["ok"], "sig": "C13:e2e-cli-args",
+                                   "cmd": "cd <dir with T%s>; pepper-compiler T %s" % (ext, " ".join(argstrs))})
     if "ok" in r1 and "ok" in r2:
         res.count("e2e:both-compile")
         res.nontriv(inp)
